@@ -28,9 +28,9 @@ ASSUMPTIONS = [
     "lossless formats must read back equal to the final bucket of the attributed run as predicted by the reference model; jpg only has to exist",
     "the extra 'detector_<bucket>.<ext>' file that a sequentially executed observation leaves behind for its first run is unreported surplus and is not demanded or forbidden by the statement",
 ]
-COMPONENTS = {"real": ["pyxel outputs (create_output_directory, save_to_files, save_to_file, apply_run_number)", "run_mode for the three modes", "dask get_async", "numpy.save / astropy fits.writeto / PIL on a real scratch filesystem"], "stub": ["wall clock (SimDateTime)", "thread pool", "OSError injection wrappers"]}
+COMPONENTS = {"real": ["pyxel outputs (create_output_directory, save_to_files, save_to_file, apply_run_number)", "run_mode for the three modes and the file entry point pyxel.run (filename table, output_filenames.csv)", "dask get_async", "numpy.save / astropy fits.writeto / PIL on a real scratch filesystem"], "stub": ["wall clock (SimDateTime)", "thread pool", "OSError injection wrappers"]}
 BUDGET = {"quick": {"n": 400, "wall": 110, "determinism": 4}, "thorough": {"n": 10000, "wall": 1600, "determinism": 12}}
-REQUIRED_REACH = ["kind:exposure", "kind:obs-seq", "kind:obs-par", "same_second_starts", "clock_backwards", "prepopulated_dir", "concurrent_starts", "mkdir_lost_race", "fault:mkdir", "fault:write", "multi_key_mapping", "fmt:fits", "fmt:npy", "fmt:jpg"]
+REQUIRED_REACH = ["via:file", "kind:exposure", "kind:obs-seq", "kind:obs-par", "same_second_starts", "clock_backwards", "prepopulated_dir", "concurrent_starts", "mkdir_lost_race", "fault:mkdir", "fault:write", "multi_key_mapping", "fmt:fits", "fmt:npy", "fmt:jpg"]
 
 BUCKETS = ("photon", "pixel", "signal", "image")
 
@@ -56,7 +56,7 @@ def gen_save(rng):
 
 
 def gen_start(rng):
-    return {"op": "start", "kind": rng.choice(["exposure", "exposure", "obs-seq", "obs-par"]), "save": gen_save(rng), "custom_dir": rng.choice(["", "", "cal_"]), "levels": rng.sample([2, 3, 5, 8], rng.randint(2, 3)), "fault": None, "sched": obs.gen_sched(rng, preemptive_ok=False)}
+    return {"op": "start", "via": rng.choice(["api", "api", "file"]), "kind": rng.choice(["exposure", "exposure", "obs-seq", "obs-par"]), "save": gen_save(rng), "custom_dir": rng.choice(["", "", "cal_"]), "levels": rng.sample([2, 3, 5, 8], rng.randint(2, 3)), "fault": None, "sched": obs.gen_sched(rng, preemptive_ok=False)}
 
 
 def generate(rng, tier):
@@ -228,6 +228,60 @@ def check_run(scn, s, op, mode, tree, before, viol, stats, feat, seen_dirs):
         viol.append({"clause": "C19.bijection", "signature": f"C19.one-file-reported-twice@{feat}", "detail": sorted(reported_all)})
 
 
+def check_file_run(scn, s, op, scratch, out_dir, before, fs, viol, stats, feat, seen_dirs, k):
+    """Start through the file entry point pyxel.run(<yaml>) and check the table of file names it returns."""
+    import dask
+    import pyxel
+
+    cfg_path = os.path.join(scratch, f"cfg_{k}.yaml")
+    with open(cfg_path, "w") as fh:
+        fh.write(world.to_yaml(s))
+    cwd = os.getcwd()
+    os.chdir(scratch)  # pyxel.run moves './pyxel.log' into the output folder
+    try:
+        with fs.active(), dask.config.set(scheduler="sync"):
+            df = pyxel.run(cfg_path)
+    finally:
+        os.chdir(cwd)
+    if sum(fs.fired.values()):
+        viol.append({"clause": "C19.fs-fault", "signature": f"C19.fs-fault-swallowed@{feat}+{op['fault']['op']}", "detail": op["fault"]})
+        return
+    after = listing(out_dir)
+    new_dirs = sorted(p for p, d in after.items() if d == "dir" and p not in before and os.path.dirname(p) == out_dir)
+    if len(new_dirs) != 1:
+        viol.append({"clause": "C19.fresh-directory", "signature": f"C19.not-exactly-one-new-directory@{feat}", "detail": [p.replace(out_dir, "") for p in new_dirs]})
+        return
+    folder = new_dirs[0]
+    if folder in seen_dirs:
+        viol.append({"clause": "C19.fresh-directory", "signature": f"C19.directory-shared-between-runs@{feat}", "detail": folder})
+    seen_dirs.add(folder)
+    reqs = expected_requests(op)
+    if df is None:
+        viol.append({"clause": "C19.complete", "signature": f"C19.no-filename-table@{feat}", "detail": None})
+        return
+    kind = op["kind"]
+    combos = [{}] if kind == "exposure" else obs.expected_space(s)[0]
+    fcol = "extension" if "extension" in df.columns else "data_format"
+    rows = df.to_dict(orient="records")
+    for b, fmt in reqs:
+        for combo in combos:
+            lvl = list(combo.values())[0] if combo else None
+            hits = [r for r in rows if str(r[fcol]) == fmt and f"_{b}" in str(r["filename"]) and (lvl is None or float(r.get("level")) == float(lvl))]
+            if len(hits) != 1:
+                viol.append({"clause": "C19.complete", "signature": f"C19.filename-table-rows@{feat}", "detail": {"bucket": b, "format": fmt, "level": lvl, "rows_found": len(hits), "columns": list(df.columns)}})
+                continue
+            path = os.path.join(folder, str(hits[0]["filename"]))
+            if not os.path.isfile(path):
+                viol.append({"clause": "C19.exists", "signature": f"C19.reported-file-missing@{feat}+{fmt}", "detail": {"file": path.replace(out_dir, "")}})
+                continue
+            want = ref.simulate(s, overrides=combo)["steps"][-1][b]
+            got = read_back(path)
+            if got is not None and (got.dtype == object or got.shape != np.asarray(want).shape or not np.array_equal(got.astype(float), np.asarray(want, dtype=float))):
+                viol.append({"clause": "C19.attributed", "signature": f"C19.file-content@{feat}+{fmt}", "detail": {"file": os.path.basename(path), "bucket": b, "level": lvl}})
+    if not os.path.isfile(os.path.join(folder, "output_filenames.csv")):
+        viol.append({"clause": "C19.complete", "signature": f"C19.no-filename-csv@{feat}", "detail": None})
+
+
 def execute(scn, forced=None):
     import pyxel
     import pyxel.outputs.outputs as po
@@ -289,6 +343,26 @@ def execute(scn, forced=None):
                         fs.faults = [dict(op["fault"])]
                         nontrivial = True
                     exc, tree, mode = None, None, None
+                    if op.get("via") == "file":
+                        stats["via:file"] = 1
+                        feat = kind + "+pyxel.run"
+                        try:
+                            check_file_run(scn, s, op, scratch, out_dir, before, fs, viol, stats, feat, seen_dirs, k)
+                        except sched.HarnessError:
+                            raise
+                        except Exception as e:  # noqa: BLE001
+                            if sum(fs.fired.values()):
+                                stats["fault:" + ("mkdir" if op["fault"]["op"] == "mkdir" else "write")] = 1
+                            else:
+                                viol.append({"clause": "C19.runs", "signature": f"C19.start-raises:{type(e).__name__}@{feat}", "detail": {"exc": repr(e)[:300], "tb": traceback.format_exc(limit=4)[-600:], "save": op["save"]}})
+                        after = listing(out_dir)
+                        for path, dig in before.items():
+                            if path not in after or after[path] != dig:
+                                viol.append({"clause": "C19.no-clobber", "signature": f"C19.preexisting-changed@{feat}", "detail": path.replace(out_dir, "")})
+                        h.update(repr(sorted((p2.replace(scratch, ""), d2) for p2, d2 in after.items() if not p2.endswith((".log", ".csv", ".yaml")))).encode())
+                        if viol:
+                            break
+                        continue
                     try:
                         mode, det, pipe = world.build_python(s)
                         with fs.active():
@@ -359,7 +433,7 @@ def execute(scn, forced=None):
                         viol.append({"clause": "C19.no-clobber", "signature": f"C19.preexisting-removed@{feat}", "detail": path.replace(out_dir, "")})
                     elif after[path] != dig:
                         viol.append({"clause": "C19.no-clobber", "signature": f"C19.preexisting-overwritten@{feat}", "detail": path.replace(out_dir, "")})
-                h.update(repr(sorted((p.replace(scratch, ""), d) for p, d in after.items())).encode())
+                h.update(repr(sorted((p.replace(scratch, ""), d) for p, d in after.items() if not p.endswith((".log", ".csv", ".yaml")))).encode())
                 if viol:
                     break
     finally:
